@@ -161,9 +161,12 @@ package core
 //@   ensures ghost(addmark) == (old(ghost(addmark)) || result)
 //@   modifies ghost(addmark)
 
+// The add mark goes away when the insertion is complete (head record moved). The start-up repair (ghost
+// repairphase, true only inside ensureChainConsistency) erases it under its own postconditions instead.
+//@ ghost repairphase Bool
 //@ func blockChain.eraseAddBlockMark
 //@   option trusted
-//@   requires [complete] ghost(headmoved)
+//@   requires [complete] ghost(headmoved) || ghost(repairphase)
 //@   ensures !ghost(addmark)
 //@   modifies ghost(addmark)
 
@@ -219,6 +222,7 @@ package core
 //@   property C05
 //@   requires chain != nil && remoteBlock != nil
 //@   requires [env!init] logger != nil && chain.topBlocks != nil
+//@   requires [running!init] !ghost(repairphase)
 //@   requires [wf] remoteBlock.Header != nil
 //@   ensures [done]   result0 == types.AddBlockSucc ==> !ghost(addmark) && ghost(headmoved) && chain.latestBlock == remoteBlock.Header
 //@   ensures [failed] result0 != types.AddBlockSucc ==> ghost(headmoved) == old(ghost(headmoved)) && chain.latestBlock == old(chain.latestBlock)
@@ -262,9 +266,14 @@ package core
 //@   option trusted
 //@   modifies nothing
 
+// Removal is a write-ahead protocol as well: ghost rmstarts counts the remove-intent marks written, i.e. the
+// removals started. A restart that finds a remove mark must start the removal of the marked block again before it
+// erases the mark (ensureChainConsistency, C05 crash clause).
+//@ ghost rmstarts Int
 //@ func blockChain.markRemoveBlock
 //@   option trusted
-//@   modifies nothing
+//@   ensures ghost(rmstarts) == old(ghost(rmstarts)) + 1
+//@   modifies ghost(rmstarts)
 
 //@ func blockChain.eraseRemoveBlockMark
 //@   option trusted
@@ -285,3 +294,23 @@ package core
 //@   requires [wf] block != nil ==> block.Header != nil
 //@   ensures [uncached] block != nil ==> !@select(@select(ghost(lruU64), ref(chain.topBlocks)), old(block.Header.Height))
 //@   ensures [head]     result && block != nil ==> chain.latestBlock != nil
+//@   ensures [started]  block != nil ==> ghost(rmstarts) == old(ghost(rmstarts)) + 1
+//@   ensures [nothing]  block == nil ==> ghost(rmstarts) == old(ghost(rmstarts))
+//@   modifies chain.latestBlock, ghost(kv), ghost(kvhas), ghost(lruU64), ghost(rmstarts), ghost(recv), ghost(stver)
+
+// Restart repair (C05 crash clause): a remove-intent mark found at start-up makes the node start the removal of the
+// marked block again - the mark may not be dropped without that; the same for an add-intent mark (the half-added
+// block is removed). Only the decision is under contract here; what remove does is its own contract.
+//@ spec abstract fn decodableBlock(b Bytes) bool
+//@ func ext_unmarshalBlock
+//@   option trusted extern=com.tuntun.rangers/node/src/middleware/types.UnMarshalBlock
+//@   ensures (result0 != nil) == decodableBlock(old(bytes(arg0)))
+//@   ensures result0 != nil ==> fresh(result0) && result0.Header != nil
+//@   modifies nothing
+
+//@ func blockChain.ensureChainConsistency
+//@   property C05
+//@   requires chain != nil && chain.topBlocks != nil && chain.verifiedBlocks != nil && typeid(chain.hashDB) != 0 && typeid(chain.heightDB) != 0 && typeid(chain.verifyHashDB) != 0 && typeid(chain.transactionPool) != 0 && logger != nil
+//@   requires [restart!init] ghost(repairphase)
+//@   ensures [rmrepair]  !old(@select(@select(ghost(kvhas), ref(chain.hashDB)), bytes(addBlockMark))) && old(@select(@select(ghost(kvhas), ref(chain.hashDB)), bytes(removeBlockMark))) && decodableBlock(old(@select(@select(ghost(kv), ref(chain.hashDB)), bytes(removeBlockMark)))) ==> ghost(rmstarts) == old(ghost(rmstarts)) + 1
+//@   ensures [addrepair] old(@select(@select(ghost(kvhas), ref(chain.hashDB)), bytes(addBlockMark))) && decodableBlock(old(@select(@select(ghost(kv), ref(chain.hashDB)), bytes(addBlockMark)))) ==> ghost(rmstarts) >= old(ghost(rmstarts)) + 1
